@@ -100,6 +100,8 @@ type VC struct {
 	termSorts map[string]string
 	lastLatch map[string][]string
 	noAssumeObs bool
+	noDefine    int
+	curLets     map[string]*Node
 }
 
 func newVC(w *World, root *ssa.Function) *VC {
@@ -116,7 +118,7 @@ func (vc *VC) name(prefix string) string {
 
 // define introduces a named abbreviation for term (unless it is atomic).
 func (vc *VC) define(prefix, srt, term string) string {
-	if isAtomic(term) {
+	if isAtomic(term) || vc.noDefine > 0 {
 		return term
 	}
 	n := vc.name(prefix)
